@@ -13,7 +13,7 @@ Definition grows (b b' : rb) (d : list Z) : Prop :=
   rb_filled_bytes b' = rb_filled_bytes b ++ d.
 
 Definition async_prefix_source {S} (A : AsyncReader S) (rem : S -> list Z) (okS : S -> Prop) : Prop :=
-  forall s b, okS s -> rb_wf b ->
+  forall s b, okS s -> rb_wf b -> zlen (rb_buf b) <= usize_max ->     (* the backing slice of a real ReadBuf is no longer than usize::MAX *)
   match prd A s b with
   | (ARPending b', s') => grows b b' [] /\ rem s' = rem s /\ okS s'
   | (AROk b', s') => exists k, 0 <= k <= rb_remaining b /\ k <= zlen (rem s) /\ grows b b' (firstn (Z.to_nat k) (rem s)) /\
@@ -60,7 +60,7 @@ Lemma skipn_app_le' {A} (a b : list A) n : (n <= length a)%nat -> skipn n (a ++ 
 Proof. intros H. rewrite skipn_app. replace (n - length a)%nat with 0%nat by lia. reflexivity. Qed.
 
 (* the second stream alone, polled with buffer bx, from a chain state whose first stream contributes nothing any more *)
-Lemma second_alone (w : ACW) b bx : ok2 (ac_rw w) -> grows b bx [] ->
+Lemma second_alone (w : ACW) b bx : ok2 (ac_rw w) -> grows b bx [] -> zlen (rb_buf b) <= usize_max ->
   match acall_rw A2 bx w with
   | Val (PrPending, b') w' => grows b b' [] /\ rem2 (ac_rw w') = rem2 (ac_rw w) /\ ok2 (ac_rw w') /\ ac_has w' = ac_has w /\ ac_first w' = ac_first w
   | Val (PrOk, b') w' => exists k, 0 <= k <= rb_remaining b /\ k <= zlen (rem2 (ac_rw w)) /\
@@ -69,8 +69,8 @@ Lemma second_alone (w : ACW) b bx : ok2 (ac_rw w) -> grows b bx [] ->
   | _ => False
   end.
 Proof.
-  intros Ho2 Hg. pose proof (grows_remaining _ _ _ Hg) as Hr. unfold zlen in Hr; cbn [length] in Hr. rewrite Z.sub_0_r in Hr.
-  pose proof (H2 (ac_rw w) bx Ho2 (proj1 Hg)) as Hs. unfold acall_rw.
+  intros Ho2 Hg Hmax. pose proof (grows_remaining _ _ _ Hg) as Hr. unfold zlen in Hr; cbn [length] in Hr. rewrite Z.sub_0_r in Hr.
+  pose proof (H2 (ac_rw w) bx Ho2 (proj1 Hg) ltac:(destruct Hg as (_ & Hl & _); lia)) as Hs. unfold acall_rw.
   destruct (prd A2 (ac_rw w) bx) as [[b'|e b'|b'|] s2]; try contradiction.
   - destruct Hs as (k & Hk & Hkr & Hg2 & Hrem & Hok & Hprog). exists k. cbn [ac_rw ac_has ac_first]. rewrite Hr in *.
     split; [exact Hk|]. split; [exact Hkr|]. split; [exact (grows_trans _ _ _ _ Hg Hg2)|]. auto 8.
@@ -82,11 +82,11 @@ Proof. intros Hw. split; [exact Hw|]. split; [reflexivity|]. split; [unfold zlen
 
 Theorem achain_prefix_source : async_prefix_source ACH2 rem_ach ok_ach.
 Proof.
-  intros w b [Ho1 Ho2] Hwf. cbn [prd ACH2]. unfold achain_poll_read. unfold bind at 1. unfold aget_reader_is_some, rem_ach.
+  intros w b [Ho1 Ho2] Hwf Hmax. cbn [prd ACH2]. unfold achain_poll_read. unfold bind at 1. unfold aget_reader_is_some, rem_ach.
   destruct (ac_has w) eqn:Eh.
   - (* the first stream is still there *)
     unfold bind at 1. unfold bind at 1. unfold acall_reader.
-    pose proof (H1 (ac_first w) b (Ho1 eq_refl) Hwf) as Hs.
+    pose proof (H1 (ac_first w) b (Ho1 eq_refl) Hwf Hmax) as Hs.
     destruct (prd A1 (ac_first w) b) as [[b1|e b1|b1|] s1]; try contradiction.
     + destruct Hs as (k & Hk & Hkr & Hg & Hrem & Hok & Hprog).
       destruct Hg as (W1 & L1 & F1 & B1).
@@ -115,7 +115,7 @@ Proof.
         unfold bind at 1.
         set (w1 := {| ac_has := false; ac_first := s1; ac_rw := ac_rw w |}).
         assert (Hg1 : grows b b1 []) by (split; [exact W1|]; split; [exact L1|]; split; [exact F1|rewrite B1; reflexivity]).
-        pose proof (second_alone w1 b b1 Ho2 Hg1) as Hs2. cbn [app].
+        pose proof (second_alone w1 b b1 Ho2 Hg1 Hmax) as Hs2. cbn [app].
         destruct (acall_rw A2 b1 w1) as [[[| |] b2] w2|w2]; try contradiction; cbn [fst snd poll_of ret].
         -- destruct Hs2 as (k2 & Hk2 & Hkr2 & Hg2 & Hrem2 & Hok2 & Hh & Hf & Hprog2). unfold w1 in *; cbn [ac_has ac_first ac_rw] in *.
            exists k2. rewrite Hh. cbn [app]. split; [exact Hk2|]. split; [exact Hkr2|]. split; [exact Hg2|]. split; [exact Hrem2|].
@@ -127,7 +127,7 @@ Proof.
       split; [exact Hg|]. split; [rewrite Hrem; reflexivity|]. split; [intros _; exact Hok|exact Ho2].
   - (* the first stream has been dropped: the second alone *)
     unfold bind, ret. cbv beta iota.
-    pose proof (second_alone w b b Ho2 (grows_refl b Hwf)) as Hs2. cbn [app].
+    pose proof (second_alone w b b Ho2 (grows_refl b Hwf) Hmax) as Hs2. cbn [app].
     destruct (acall_rw A2 b w) as [[[| |] b2] w2|w2]; try contradiction; cbn [fst snd poll_of ret].
     + destruct Hs2 as (k2 & Hk2 & Hkr2 & Hg2 & Hrem2 & Hok2 & Hh & Hf & Hprog2). rewrite Hh, Eh. cbn [app].
       exists k2. split; [exact Hk2|]. split; [exact Hkr2|]. split; [exact Hg2|]. split; [exact Hrem2|].
@@ -164,7 +164,7 @@ Definition marked_rd : AsyncReader (list Z * list bool) := {| prd := fun s b =>
   end |}.
 Lemma marked_rd_source : async_prefix_source marked_rd fst (fun _ => True).
 Proof.
-  intros [rest marks] b _ Hwf. cbn [prd marked_rd fst snd].
+  intros [rest marks] b _ Hwf _. cbn [prd marked_rd fst snd].
   assert (Hrem : 0 <= rb_remaining b) by (destruct Hwf as (W1 & W2 & W3); unfold rb_remaining, rb_capacity; lia).
   pose proof (zlen_nonneg rest) as Hr.
   assert (Hdel : let k := Z.min (rb_remaining b) (zlen rest) in
